@@ -47,6 +47,7 @@ def extract_item_buffer(ctx, sliced, fired, more=()):
         # element() returns a reference: calls are lvalues in the C++ text -> deref the pointer our C version returns
         t = rw.sub(t, r'item_buffer_element\(self, ([^()]*(?:\([^()]*\))?[^()]*)\)\.', r'item_buffer_element(self, \1)->', 0, name='ref-return deref')
         t = rw.sub(t, r'&item_buffer_element\(self, ([^()]*(?:\([^()]*\))?[^()]*)\);', r'item_buffer_element(self, \1);', 0, name='ref-return deref')
+        t = rw.sub(t, r'item_buffer_size\(self\)', 'item_buffer_size(self, 0)', 0, name='default argument made explicit')
         return t
     t = conv(r'aligned_space_item &element\(size_type i\)', 'item_buffer_element', extra=[(r'return my_array\[', 'return &my_array[', 1)], ret='aligned_space_item*')
     t = rw.sub(t, r'VERIF_ASSERT\(!\(\(\(size_t\)[^;]*;', 'RG_NOP();', 0, name='alignment asserts on aligned_space (no C counterpart) -> RG_NOP')
@@ -102,7 +103,28 @@ def extract(ctx):
     sliced += lm.sliced
     fired['limiter_node'] = rw.fired
 
-    ib, rw, conv = extract_item_buffer(ctx, sliced, fired)
+    GROW = [(r'allocator_type\(\)\.allocate\(new_size\)', '(aligned_space_item*)alloc_nofail(new_size * sizeof(aligned_space_item))', 1),
+            (r'char \*new_space = \(char \*\)&\(new_array\[i&\(new_size-1\)\]\.item\);\s*\(void\)new\(new_space\) item_type\(get_my_item\(i\)\);', 'new_array[i&(new_size-1)].item = *get_my_item(i);', 1),
+            (r'clean_up_buffer\(false\);', 'clean_up_buffer(false);', 1)]
+    CLEAN = [(r'allocator_type\(\)\.deallocate\(my_array,my_array_size\);', 'free(my_array);', 1), (r'my_head = my_tail = my_array_size = 0;', 'my_head = 0; my_tail = 0; my_array_size = 0;', 1)]
+    more15 = [(r'void clean_up_buffer\(bool reset_pointers\)', 'item_buffer_clean_up_buffer', CLEAN, None),
+              (r'void grow_my_array\( size_t minimum_size \)', 'item_buffer_grow_my_array', GROW, None),
+              (r'bool buffer_full\(\)', 'item_buffer_buffer_full', [], None),
+              (r'void destroy_front\(\)', 'item_buffer_destroy_front', [], None),
+              (r'bool push_back\(item_type& v\s', 'item_buffer_push_back', [(r'set_my_item\(my_tail, v\);', 'set_my_item(my_tail, v);', 1)], None),
+              (r'bool pop_front\(item_type& v\s', 'item_buffer_pop_front', [(r'v = e->item;', '*v = e->item;', 1)], None)]
+    ib, rw, conv = extract_item_buffer(ctx, sliced, fired, more=more15)
+    ibp = os.path.join(ctx.work, 'item_buffer.inc')
+    txt_ib = open(ibp).read()
+    txt_ib = rw.sub(txt_ib, r'void item_buffer_grow_my_array\(struct item_buffer\* self, size_t minimum_size\) \{', 'void item_buffer_grow_my_array(struct item_buffer* self, size_t minimum_size)\nCONTRACT_grow_my_array {', 1, 1, name='contract-anchor')
+    from cxx2c import tag_loops as _tl
+    a_ = txt_ib.index('void item_buffer_grow_my_array(struct item_buffer* self, size_t minimum_size)\nCONTRACT_grow_my_array {')
+    e_ = txt_ib.index('\n    }\n', a_) + 7
+    txt_ib = txt_ib[:a_] + _tl(txt_ib[a_:e_], 'ibgrow', rw, expect=3) + txt_ib[e_:]
+    a_ = txt_ib.index('void item_buffer_clean_up_buffer(')
+    e_ = txt_ib.index('\n    }\n', a_) + 7
+    txt_ib = txt_ib[:a_] + _tl(txt_ib[a_:e_], 'ibclean', rw, expect=1) + txt_ib[e_:]
+    open(ibp, 'w').write('void item_buffer_clean_up_buffer(struct item_buffer* self, bool reset_pointers);\nvoid item_buffer_grow_my_array(struct item_buffer* self, size_t minimum_size);\n' + txt_ib)
     sq = CClass(FG, r'class sequencer_node : public queue_node<T> \{', 'item_buffer', rw=rw)
     sq.members = ib.members
     s = resolved(sq.method(r'bool internal_push\(sequencer_operation \*op\) override'), 'sequencer_internal_push')
@@ -125,14 +147,16 @@ def build(ctx):
         Job('limiter.try_put', C, 'h_lim_try_put', route='RG', defines=['LIM'], target='limiter_node::try_put_task_impl + check_conditions', source=FG),
         Job('limiter.forward', C, 'h_lim_forward', route='RG', defines=['LIM'], target='limiter_node::forward_task', source=FG),
         Job('limiter.decrement', C, 'h_lim_decrement', route='RG', defines=['LIM'], target='limiter_node::decrement_counter', source=FG),
-        Job('sequencer.push', C, 'h_seq_push', route='LF', defines=['SEQ'], target='sequencer_node::internal_push + item_buffer::place_item/set_my_item/my_item_valid/element/size/capacity', source=FG, timeout=600),
-        Job('sequencer.push.tagmax', C, 'h_seq_push_tagmax', route='LF', defines=['SEQ'], target='sequencer_node::internal_push, tag == SIZE_MAX', source=FG, timeout=600),
+        Job('buffer.grow_my_array', C, 'h_ib_grow', route='LC', enforce='item_buffer_grow_my_array', loops=True, nloops=4, defines=['SEQ'], timeout=900, target='item_buffer::grow_my_array + clean_up_buffer', source=IB),
+        Job('buffer.push_pop', C, 'h_ib_fifo', route='LC', replace=['item_buffer_grow_my_array'], defines=['SEQ'], timeout=600, target='item_buffer::push_back / pop_front (modular over grow_my_array\'s proved contract)', source=IB),
+        Job('sequencer.push', C, 'h_seq_push', route='LC', replace=['item_buffer_grow_my_array'], defines=['SEQ'], target='sequencer_node::internal_push + item_buffer::place_item/set_my_item/my_item_valid/element/size/capacity', source=FG, timeout=600),
+        Job('sequencer.push.tagmax', C, 'h_seq_push_tagmax', route='LC', replace=['item_buffer_grow_my_array'], defines=['SEQ'], target='sequencer_node::internal_push, tag == SIZE_MAX', source=FG, timeout=600),
     ]
     return {
         'jobs': jobs, 'sliced': sliced, 'fired': fired,
         'trusted': ['my_mutex serialises the locked sections (spin_mutex: C08); each section is one atomic step of the rely/guarantee argument',
                     'successor/predecessor caches, graph activity, task allocation: nondeterministic stubs (every accept/reject pattern)',
-                    'item_buffer::grow_my_array: contract stub in the sequencer proof (capacity >= requested, items and states of [head,tail) preserved)'],
+                    'buffers up to 2^16 slots (stated bound of the grow_my_array contract)'],
         'drops': ['preview (#if __TBB_PREVIEW_FLOW_GRAPH_TRY_PUT_AND_WAIT) arms resolved to 0', 'scoped_lock -> LOCKED_SECTION() = interference point', 'metainfo arguments', 'aligned_space<T> -> plain struct',
                   'placement new / destructor of a trivially copyable item_type (int)'],
         'not_decided': ['join_node (tuple-recursive templates)', 'overwrite/write_once/broadcast/split/indexer nodes (successor caches)', 'queue_node / priority_queue_node ordering', 'buffer_node aggregator protocol (C13)',
